@@ -109,6 +109,11 @@ class BGP(protocol.Protocol):
         Starts the initial negotiation of the protocol
         """
         self.init_rib()
+        # Every session starts from the configuration: forget what an
+        # earlier session negotiated or learned from the peer.
+        self.fsm.hold_time = CONF.time.hold_time
+        self.fsm.keep_alive_time = CONF.time.keep_alive_time
+        cfg.CONF.bgp.running_config['capability']['remote'] = {}
         # Set transport socket options
         self.transport.setTcpNoDelay(True)
         # set tcp option if you want
